@@ -3,6 +3,7 @@
     ./check selftest-determinism   same seeds twice, 1 vs 16 workers, several PYTHONHASHSEED: digests equal
     ./check selftest-sensitivity   break each property on purpose in a scratch copy: the check must alarm
     ./check selftest-fidelity      simulated disk/stdio vs a real `python -m pdpy11` in a real temp dir
+    ./check selftest-seeded[:id]   every independently written change under seeded/: the check must alarm
 
 None of these is a registered property check; they establish that the checks can be believed.
 """
@@ -172,7 +173,46 @@ def determinism(tier, jobs):
     return rc
 
 
+def seeded(tier, jobs, only=None):
+    """Every independently written change under /verif/seeded: apply its patch to a throw-away worktree
+    of /repo (outside /repo and /verif), run the property's quick check against it, expect an alarm."""
+    import glob
+    results = []
+    for d in sorted(glob.glob(os.path.join(VERIF, "seeded", "*", ""))):
+        sid = os.path.basename(d.rstrip("/"))
+        if only and only not in sid:
+            continue
+        meta = json.load(open(os.path.join(d, "meta.json")))
+        prop = meta["property"]
+        tmp = tempfile.mkdtemp(prefix="pdpy11-seeded-")
+        wt = os.path.join(tmp, "wt")
+        try:
+            subprocess.run(["git", "-C", boot.REPO, "worktree", "add", "-q", "--detach", wt, "HEAD"], check=True)
+            ap = subprocess.run(["git", "-C", wt, "apply", os.path.join(d, "patch.diff")])
+            if ap.returncode != 0:
+                print("SEEDED %-8s %s -> patch does not apply any more" % (sid, prop))
+                results.append((sid, False))
+                continue
+            t = time.time()
+            p = subprocess.run([os.path.join(VERIF, "check"), prop, "--tier", "quick"], cwd=VERIF,
+                               env=dict(os.environ, VERIF_REPO=wt), stdout=subprocess.PIPE, stderr=subprocess.STDOUT, text=True)
+            vio = [l for l in p.stdout.splitlines() if l.startswith("VIOLATION")]
+            last = p.stdout.strip().splitlines()[-1] if p.stdout.strip() else ""
+            caught = p.returncode == 1 and bool(vio)
+            print("SEEDED %-8s %s -> %s (exit %d, %.0fs) %s" % (sid, prop, "caught" if caught else "MISSED", p.returncode,
+                                                              time.time() - t, last[:90]))
+            results.append((sid, caught))
+        finally:
+            subprocess.run(["git", "-C", boot.REPO, "worktree", "remove", "--force", wt])
+            subprocess.run(["git", "-C", boot.REPO, "worktree", "prune"])
+            shutil.rmtree(tmp, ignore_errors=True)
+    print("seeded: %d/%d changes caught" % (sum(1 for r in results if r[1]), len(results)))
+    return 0 if all(r[1] for r in results) else 1
+
+
 def main(prop, tier, jobs):
+    if prop.startswith("selftest-seeded"):
+        return seeded(tier, jobs, prop.split(":", 1)[1] if ":" in prop else None)
     if prop.startswith("selftest-sensitivity"):
         only = prop.split(":", 1)[1] if ":" in prop else None
         return sensitivity(tier, jobs, only)
